@@ -397,7 +397,7 @@ func (c *FnVC) loopHeader(li *loopInfo, reachName string) {
 	for i, ai := range li.autoInv {
 		t := ai.mk(entryPhis)
 		c.obligeNamed("inv", fmt.Sprintf("loop%d.auto%d.entry", li.ordinal, i+1), t, reachName, "inferred invariant holds on entry: "+ai.descr, nil)
-		c.assume(ai.mk(headPhis))
+		c.assume(imp(reachName, ai.mk(headPhis)))
 	}
 	if li.spec != nil {
 		for i, inv := range li.spec.Invariants {
@@ -413,7 +413,9 @@ func (c *FnVC) loopHeader(li *loopInfo, reachName string) {
 					c.errorf("%s: loop %d invariant %q: %v", c.fnName(), li.ordinal, inv.Text, err)
 					continue
 				}
-				c.assume(th)
+				// only on paths that reach the loop: an invariant over values the loop does
+				// not change (parameters, earlier locals) says nothing about other paths
+				c.assume(imp(reachName, th))
 			}
 		}
 		for _, l := range li.spec.Lemmas {
@@ -422,7 +424,7 @@ func (c *FnVC) loopHeader(li *loopInfo, reachName string) {
 				c.errorf("%s: loop %d lemma %q: %v", c.fnName(), li.ordinal, l.Text, err)
 				continue
 			}
-			c.assume(t)
+			c.assume(imp(reachName, t))
 		}
 		if li.spec.Decreases != nil {
 			t, _, err := c.invEval(li, headPhis, li.headHeap).expr(li.spec.Decreases.Expr, intT)
